@@ -438,9 +438,23 @@ class _FuncAnalysis:
         elif isinstance(st, ast.If):
             self.visit_calls(st.test)
             e0 = {k: set(v) for k, v in self.env.items()}
+            # `if <..>.preloads.S is (not) None`: in the branch where the slot is None nothing can be an alias of the preloaded array S - in particular not the value a
+            # helper returned as "the preload if there is one, otherwise freshly computed" (so `x = helper; if S is not None: x = copy(x)` leaves no alias behind)
+            slot = None
+            t = st.test
+            if isinstance(t, ast.Compare) and len(t.ops) == 1 and isinstance(t.ops[0], (ast.Is, ast.IsNot)) and isinstance(t.comparators[0], ast.Constant) and t.comparators[0].value is None \
+                    and isinstance(t.left, ast.Attribute) and isinstance(t.left.value, ast.Attribute) and t.left.value.attr == "preloads":
+                slot = (t.left.attr, isinstance(t.ops[0], ast.Is))   # (slot, the BODY is the none-branch)
+
+            def without_slot(env):
+                return {k: ({x for x in v if not (x[0] == "PL" and len(x) > 1 and x[1] == slot[0])} or {F}) for k, v in env.items()}
+            if slot and slot[1]:
+                self.env = without_slot(self.env)
             self.block(st.body)
             e1 = self.env
             self.env = {k: set(v) for k, v in e0.items()}
+            if slot and not slot[1]:
+                self.env = without_slot(self.env)
             self.block(st.orelse)
             self.merge(e1)
         elif isinstance(st, ast.Return):
